@@ -92,8 +92,25 @@ func HarnessC10Tree() {
 	}
 	vfsWriteFile("templates/layouts/l.tw", "[@reserve(\"r\")]")
 	vfsWriteFile("templates/components/c.tw", "<{{ a }}>")
+	// another literal of the same byte length at the same line and columns of the component / layout file
+	other := make([]byte, len(lit))
+	for i := range other {
+		other[i] = 'b'
+	}
+	other[0], other[len(other)-1] = '"', '"'
+	if len(other) > 2 {
+		other[1] = '<'
+	}
 	var page, pre, post string
-	switch vChoice("context", 3) {
+	switch vChoice("context", 5) {
+	case 3:
+		vfsWriteFile("templates/components/c.tw", "{{ "+string(other)+" }}")
+		page, pre, post = "{{ "+lit+" }}@component(\"~c\", {a: 1})", "", refEscapeLiteral(string(other[1:len(other)-1]))
+	case 4:
+		vfsWriteFile("templates/layouts/l.tw", "{{ "+string(other)+" }}[@reserve(\"r\")]")
+		page, pre, post = "{{ 1 }}@use(\"~l\")@insert(\"r\")@end", "", ""
+		page = "@use(\"~l\")@insert(\"r\"){{ "+lit+" }}@end"
+		pre, post = refEscapeLiteral(string(other[1:len(other)-1]))+"[", "]"
 	case 0:
 		page, pre, post = "@use(\"~l\")@insert(\"r\", "+lit+")", "[", "]"
 	case 1:
